@@ -95,6 +95,8 @@ pub struct St {
     frozen_class: Option<String>,
     /// substreams temporarily owned by a half-close task (still held)
     in_flight_holds: std::sync::Arc<std::sync::atomic::AtomicUsize>,
+    /// a ForceCloseX command was issued while protocol X knew of a connection to the peer
+    force_close_hit_a_connection: bool,
     /// ("X"|"Y", outbound substream id) -> number of L's connection tasks that had ended when the request was accepted
     ended_at_request: BTreeMap<(&'static str, usize), usize>,
 }
@@ -177,6 +179,7 @@ impl Scenario for ConnScenario {
             frozen_class: None,
             in_flight_holds: Default::default(),
             ended_at_request: BTreeMap::new(),
+            force_close_hit_a_connection: false,
         }
     }
 
@@ -241,6 +244,13 @@ impl Scenario for ConnScenario {
             }
             COp::KillRemote => w.kill_node(st.r),
             COp::ForceCloseX => {
+                let xl = st.x.log.lock();
+                let est = xl.iter().filter(|e| matches!(e, Seen::Established { .. })).count();
+                let closed = xl.iter().filter(|e| matches!(e, Seen::Closed { .. })).count();
+                drop(xl);
+                if est > closed {
+                    st.force_close_hit_a_connection = true;
+                }
                 let _ = st.x.cmd.send(MonitorCmd::ForceClose(st.peer_r));
             }
             COp::ExitY => {
@@ -438,7 +448,8 @@ impl Scenario for ConnScenario {
             let all_ended = if self.real_tcp {
                 // no carrier handles on real sockets: the program tells whether every connection must have ended
                 !w.nodes[st.r].alive
-                    || self.program.iter().any(|o| matches!(o, COp::ForceCloseX))
+                    // a force close issued (early, by a deviation) before the protocol knew the connection does nothing
+                    || st.force_close_hit_a_connection
                     || (self.keep_alive <= 8 && st.now >= st.established_at.last().copied().unwrap_or(0) + self.keep_alive + 2 && st.x.substreams.lock().iter().all(|s| s.is_none()) && st.y.substreams.lock().iter().all(|s| s.is_none()))
             } else {
                 w.links.iter().all(|l| l.a_to_b.writer_closed() || l.b_to_a.writer_closed()) || !w.nodes[st.r].alive
